@@ -73,6 +73,7 @@ def fill(shape, rng, ctr):
 
 class PROP(PropCheck):
     id = "C05"
+    mismatch_is_failure = False
     theorems = ["C05_ladder_is_reference", "C05_unary_is_reference", "C05_entry_points_are_reference", "C05_binop_of_token_is_reference", "C05_group_transparent",
                 "C05_parse_print", "C05_strip_expected", "C05_eval_ungroup", "C05_eval_fuel_mono", "C05_and_assoc_eval",
                 "C05_min_full_same_behaviour"]
